@@ -55,7 +55,11 @@ def build_problem(xs, ys, occ):
         ifile = {"Width": xs[-1] - xs[0], "Height": ys[-1] - ys[0], "Rectangles": rl}
     else:
         ifile = rio.get_alloc(alloc_yaml(xs, ys, occ))
-    carrier = types.SimpleNamespace(input_problem=[], selbox="", factor=10000, inibox=(0, 0, 0, 0, 0), blocks=[], prev_x={}, prev_y={},
+    # the tool integerises areas as int(factor * area) with factor 10000 by default (option --sf sets it by hand): lattices whose
+    # cells are smaller than 0.01 square units get the factor that makes their smallest cell 100 units, as a user would have to
+    amin = min((xs[i + 1] - xs[i]) * (ys[j + 1] - ys[j]) for i in range(len(xs) - 1) for j in range(len(ys) - 1))
+    factor = 10000 if amin * 10000 >= 100 else round(100 / amin)
+    carrier = types.SimpleNamespace(input_problem=[], selbox="", factor=factor, inibox=(0, 0, 0, 0, 0), blocks=[], prev_x={}, prev_y={},
                                     next_x={}, next_y={}, xcoords=[], ycoords=[], theoreticalBestArea=0.0, gm=None)
     carrier.input_problem, carrier.selbox = rio.select_box("M", ifile)
     r.definecoords(carrier)
@@ -170,7 +174,11 @@ GRIDS_QUICK = [
     ([-3.7, -3.6, -3.5, -3.4], [-1.0, -0.7, -0.4]), ([-1, 0, 1], [-0.5, 0.5, 1.5]),
 ]
 GRIDS_MORE = [([0, 1, 2, 3, 4], [0, 1, 2, 3]), ([0, 1, 2, 3], [0, 1, 2, 3, 4]), ([2, 3, 5, 6, 8], [1, 2, 3]), ([0, 0.5, 1.5, 2.25], [0, 1, 1.75, 3]),
-              ([0.5, 1.5, 2.5], [0.5, 1.5, 2.5]), ([0, 1, 2, 3, 4, 5], [0, 1, 2])]
+              ([0.5, 1.5, 2.5], [0.5, 1.5, 2.5]), ([0, 1, 2, 3, 4, 5], [0, 1, 2]),
+              ([0, 1, 2, 3, 4], [0, 1, 2, 3, 4]),                                            # 4x4 cells
+              ([0, 1e-3, 2e-3, 3e-3], [0, 1e-3, 2e-3]), ([1000, 2000, 3500], [500, 1500, 2500, 4000]),      # small and large scales
+              ([1e6, 1e6 + 1, 1e6 + 2, 1e6 + 3], [0, 1, 2]), ([-1e-3, 0, 2e-3], [-5e-4, 5e-4, 1.5e-3, 2e-3]),   # far origin, tiny around zero
+              ([0, 0.3, 0.6, 0.8999999999999999, 1.2], [0, 0.3, 0.6]), ([0, 1, 2], [0, 1, 2, 3, 4, 5]), ([0, 2, 3, 7], [0, 5, 6, 7, 12])]
 
 
 def _occ_patterns(nc, nr, n):
@@ -184,7 +192,7 @@ def _occ_patterns(nc, nr, n):
 
 @contract(P, kind="enum", functions=[R + "rect.enforce_bb", R + "rect.solve", R + "rect.definecoords", R + "rect.area", R + "rect_io.select_box",
                                      R + "rect_io.get_alloc"],
-          scope="bounded: lattices up to 3x3 cells (4x3 / 5x2 thorough), uniform and non-uniform, origin 0 and not, integer and fractional; k = 1..3",
+          scope="bounded: lattices up to 4x3 cells (up to 4x4 / 5x2 / 2x5 and scaled / shifted lattices thorough), uniform and non-uniform, origin 0 and not, integer and fractional; k = 1..3",
           params=[dict(g=i) for i in range(len(GRIDS_QUICK))] + [dict(g=100 + i) for i in range(len(GRIDS_MORE))])
 def model_set_is_exactly_the_single_trunk_orthogons(g, replay=None):
     tier = os.environ.get("VERIF_TIER", "quick")
